@@ -22,6 +22,8 @@ def call(tt, case):
     Y = algrun.build(case["y"]) if isinstance(case.get("y"), dict) and "I" in case["y"] else None
     S = case["x"]
     d = len(S["I"])
+    if cls == "order" and Y is not None and op in ("matmul", "fast_matvec", "amen_mv"):
+        return {"matmul": lambda: X @ Y, "fast_matvec": lambda: X.fast_matvec(Y, nswp=2), "amen_mv": lambda: tt.amen_mv(X, Y, nswp=2)}[op]
     if cls in ("shape", "kind") and op in ("add", "sub", "mul", "kron", "truediv", "matmul") and Y is not None:
         return {"add": lambda: X + Y, "sub": lambda: X - Y, "mul": lambda: X * Y, "kron": lambda: tt.kron(X, Y),
                 "truediv": lambda: X / Y, "matmul": lambda: X @ Y}[op]
